@@ -9,6 +9,7 @@ import os
 import random
 import sys
 import tempfile
+import zlib
 
 from . import impl
 from .impl import P
@@ -128,10 +129,18 @@ def do_load(db, arg, watch=True):
         path = os.path.join(TMP or "/tmp", "verif-missing-%d-%d.fp" % (os.getpid(), random.getrandbits(30)))
     else:
         raw = bytes.fromhex(arg[1:]) if arg.startswith("x") else bytes.fromhex(arg)
-        fd, path = tempfile.mkstemp(prefix="verif-db-", suffix=".fp", dir=TMP)
-        with os.fdopen(fd, "wb") as fh:
-            fh.write(raw)
-        cleanup = lambda: os.unlink(path)
+        if zlib.crc32(raw) % 10 < 7:
+            # the usual way a database changes: the SAME path is edited and loaded again (one path per worker,
+            # rewritten for every load), so a load that is skipped or cached by path shows up
+            path = os.path.join(TMP or "/tmp", "verif-db-same-%d.fp" % os.getpid())
+            with open(path, "wb") as fh:
+                fh.write(raw)
+            cleanup = lambda: os.unlink(path)
+        else:
+            fd, path = tempfile.mkstemp(prefix="verif-db-", suffix=".fp", dir=TMP)
+            with os.fdopen(fd, "wb") as fh:
+                fh.write(raw)
+            cleanup = lambda: os.unlink(path)
     before = snapshot(db)
     before_full = db_str(db)
     rd = Reader(db)
